@@ -36,6 +36,11 @@ type ExecKnobs struct {
 	Procs    int    `json:"procs,omitempty"` // what the engine sees as GOMAXPROCS
 	Direct   bool   `json:"direct,omitempty"`   // the simulated driver forwards lookups with the engine's own channel (the real driver's channel / lock behaviour is not shielded); only call-level faults
 	Slow     *FaultSpec `json:"slow,omitempty"` // a driver call of the statement that is slow in simulated time (never failing); applied when no fault plan is given
+	// Cancel: the caller's context is cancelled during this driver call (at its start, or after J elements of a stream).
+	// Applied when no fault plan is given and the store is built for this execution. A cancelled statement may fail;
+	// then it is executed again without the cancellation and that run is judged. If it reports success although it was
+	// cancelled, its result is judged like any other: a table handed to the caller is the answer, cancelled or not.
+	Cancel   *FaultSpec `json:"cancel,omitempty"`
 	CtxAware bool   `json:"ctxaware,omitempty"` // the simulated driver returns ctx.Err() once its context is done (a remote driver); off: it ignores the context like storage/memory
 }
 
@@ -67,6 +72,8 @@ func genKnobs(r *Rand) ExecKnobs {
 	if r.Chance(0.1) {
 		// slowness is not failure: whatever is judged about the statement holds with one of its driver calls slow
 		k.Slow = &FaultSpec{Call: r.Intn(6), Mode: []string{"slow", "slowmid"}[r.Intn(2)], J: r.Intn(8)}
+	} else if r.Chance(0.1) {
+		k.Cancel = &FaultSpec{Call: r.Intn(8), Mode: "cancel", J: r.Intn(4)}
 	}
 	return k
 }
@@ -163,6 +170,27 @@ var execSeq int
 // execStatement runs text through the server.BQL pipeline inside a simulated
 // run over the simulated driver.
 func execStatement(t *testing.T, gs []GraphData, text string, k ExecKnobs, faults []FaultSpec, inner storage.Store) *execResult {
+	if faults == nil && inner == nil && k.Cancel != nil {
+		er := execStatement1(t, gs, text, k, []FaultSpec{*k.Cancel}, nil)
+		if er.res == nil || er.fired["caller_cancel"] == 0 {
+			return er
+		}
+		simAgg.stats["fault_knob_caller_cancel"]++
+		if er.done && er.err != nil && er.panicV == "" && len(er.res.Panics) == 0 && !er.res.Deadlock && !er.res.StepCap {
+			// the cancelled statement failed, as it may: judge the same statement without the cancellation
+			simAgg.stats["probe_cancelled_statement_failed_and_was_rerun"]++
+			k.Cancel = nil
+			return execStatement1(t, gs, text, k, nil, nil)
+		}
+		if er.done && er.err == nil {
+			simAgg.stats["probe_cancelled_statement_reported_success_and_was_judged"]++
+		}
+		return er
+	}
+	return execStatement1(t, gs, text, k, faults, inner)
+}
+
+func execStatement1(t *testing.T, gs []GraphData, text string, k ExecKnobs, faults []FaultSpec, inner storage.Store) *execResult {
 	er := &execResult{}
 	// blank node ids are a function of the statement, its knobs and (for histories over one store) its position
 	seqKey := 0
